@@ -15,7 +15,7 @@ from ..scoping import NamespaceIds
 from ..text_gen import GeneratedContent, TextBlock
 
 # own modules
-from . import distillate_ns, SupportFileCfg, generate_cpp_code
+from . import distillate_ns, SupportFileCfg, generate_cpp_code, include_guarded
 
 
 def header_hh() -> TextBlock:
@@ -82,6 +82,7 @@ def create_header(ns_prefix: Optional[NamespaceIds] = None) -> GeneratedContent:
                                                             'string'])),
                          ns_prefix=ns_prefix)
 
-    return GeneratedContent(filename=f'{file_ns}_MiscUtils.hh',
-                            contents=str(generate_cpp_code(cfg)),
+    filename = f'{file_ns}_MiscUtils.hh'
+    return GeneratedContent(filename=filename,
+                            contents=include_guarded(filename, str(generate_cpp_code(cfg))),
                             namespace=namespace)
